@@ -94,7 +94,7 @@ prop("C15",
      assumptions=DISP_ASSUME,
      residual="composition of single moves into a block move (move_rows_action loop), cell content re-entry, hidden-row handling")
 prop("C33",
-     units=["refshift", "dispsites", "cutcf", "cfshift"],
+     units=["refshift", "dispsites", "cutcf", "cfshift", "record"],
      level="proof",
      claim="link-key maps, CF corner maps and the formula reference rewriter are proved equal to the SAME spec functions (lemma_metadata_agrees_with_formulas): deleted <=> None <=> #REF!, at every edge position",
      assumptions=DISP_ASSUME,
